@@ -412,54 +412,69 @@ Proof.
   rewrite Hm in E. inversion E; subst m'. eapply layer_covers_content; eassumption.
 Qed.
 
-(* nested layers: the group is laid out in the frame of its parent layer *)
-Lemma layer_covers_content_frame b m W H ox oy px py :
-  small_bbox b -> valid_irect m -> frame_ok W H ox oy m ->
+(* ---------------------------------------------------------------- nested layers (any depth) *)
+Lemma layer_child_max_spec m P : valid_irect m -> valid_irect P -> inside P m ->
+  layer_child_max m P = ishift (- ix P) (- iy P) m /\ valid_irect (ishift (- ix P) (- iy P) m).
+Proof.
+  intros Vm VP I. unfold layer_child_max, irect_translate.
+  assert (V : valid_irect (ishift (- ix P) (- iy P) m)).
+  { unfold valid_irect, inside, ishift, i_right, i_bottom in *; cbn [ix iy iw ih]. consts. lia. }
+  split; [|exact V].
+  assert (E : irect_from_xywh (ix m + - ix P) (iy m + - iy P) (iw m) (ih m) = Some (ishift (- ix P) (- iy P) m)).
+  { apply irect_from_xywh_Some. unfold valid_irect, ishift, mk_irect in *; cbn [ix iy iw ih] in *. consts.
+    repeat split; try lia. }
+  rewrite E. reflexivity.
+Qed.
+
+(* in every frame reachable through nested layers the clamp box is max_bbox seen from that frame *)
+Lemma frame_inv m0 ox oy m : valid_irect m0 -> frame m0 ox oy m ->
+  m = ishift (- ox) (- oy) m0 /\ valid_irect m.
+Proof.
+  intros V0 F. induction F as [|ox oy m b nf P F IH L].
+  - split; [|exact V0]. unfold ishift. destruct m0; simpl. f_equal; lia.
+  - destruct IH as [E Vm]. destruct (layer_within_max b nf m P Vm L) as [VP IP].
+    destruct (layer_child_max_spec m P Vm VP IP) as [E' V']. split; [|rewrite E'; exact V'].
+    rewrite E', E. unfold ishift; cbn [ix iy iw ih]. f_equal; lia.
+Qed.
+
+Lemma frame_pixel m0 ox oy m W H px py : valid_irect m0 -> inside (canvas_rect W H) m0 -> frame m0 ox oy m ->
+  in_irect (canvas_rect W H) px py -> in_irect m (px - ox) (py - oy) /\ valid_irect m.
+Proof.
+  intros V0 I F C. destruct (frame_inv m0 ox oy m V0 F) as [E Vm]. split; [|exact Vm]. subst m.
+  unfold inside, in_irect, canvas_rect, ishift, i_right, i_bottom in *; cbn [ix iy iw ih] in *. lia.
+Qed.
+
+(* a group nested in any number of layers: every canvas pixel its content (+ 1 px fringe) touches is in its layer *)
+Lemma nested_layer_covers_content b m0 W H ox oy m px py :
+  small_bbox b -> 1 <= W <= CANVAS_MAX -> 1 <= H <= CANVAS_MAX -> max_bbox W H = Some m0 -> frame m0 ox oy m ->
   in_irect (canvas_rect W H) px py -> touches b 1%Q (px - ox) (py - oy) ->
   in_lres (layer_box b true m) (px - ox) (py - oy).
 Proof.
-  intros S Vm F C T. apply layer_pixels_small; auto. split.
-  - apply touches_raw_box; assumption.
-  - unfold frame_ok, inside, in_irect, canvas_rect, ishift, i_right, i_bottom in *; simpl in *. lia.
+  intros S HW HH Hm F C T.
+  destruct (canvas_in_max_bbox W H HW HH) as [m' [E [V [I _]]]]. rewrite Hm in E. inversion E; subst m'.
+  destruct (frame_pixel m0 ox oy m W H px py V I F C) as [M Vm].
+  apply layer_pixels_small; auto. split; [apply touches_raw_box; assumption | exact M].
 Qed.
 
-(* one enclosing layer is always fine: its origin lies within [-2W, W) *)
-Lemma frame_ok_depth1 W H m P px py :
-  1 <= W <= CANVAS_MAX -> 1 <= H <= CANVAS_MAX -> max_bbox W H = Some m ->
-  valid_irect P -> inside P m -> in_irect P px py -> in_irect (canvas_rect W H) px py ->
-  frame_ok W H (ix P) (iy P) m.
+(* whole-pixel root translation with nesting: the two renderings may reach the group through differently clamped
+   (differently placed) enclosing layers - frames (ox,oy,m) and (ox',oy',m') - the content box moves by (dx,dy) in
+   device space, i.e. by (dx - (ox'-ox), dy - (oy'-oy)) in local coordinates; the layers still agree on every
+   pixel that is on the canvas in both *)
+Lemma nested_layers_agree dx dy b nf m0 W H ox oy m ox' oy' m' px py :
+  let b' := qshift (dx - (ox' - ox)) (dy - (oy' - oy)) b in
+  small_bbox b -> small_bbox b' ->
+  1 <= W <= CANVAS_MAX -> 1 <= H <= CANVAS_MAX -> max_bbox W H = Some m0 ->
+  frame m0 ox oy m -> frame m0 ox' oy' m' ->
+  in_irect (canvas_rect W H) px py -> in_irect (canvas_rect W H) (px + dx) (py + dy) ->
+  (in_lres (layer_box b nf m) (px - ox) (py - oy) <->
+   in_lres (layer_box b' nf m') (px + dx - ox') (py + dy - oy')).
 Proof.
-  intros HW HH Hm VP I Pp C. rewrite (max_bbox_spec W H HW HH) in Hm. inversion Hm; subst m; clear Hm.
-  unfold frame_ok, inside, in_irect, canvas_rect, ishift, i_right, i_bottom, mk_irect, valid_irect,
-    MAXBB_OFF_X, MAXBB_OFF_Y, MAXBB_MUL_W, MAXBB_MUL_H in *; cbn [ix iy iw ih] in *. lia.
-Qed.
-
-Lemma frame_okb_iff W H ox oy m : frame_okb W H ox oy m = true <-> frame_ok W H ox oy m.
-Proof. unfold frame_okb, frame_ok. apply insideb_iff_early. Qed.
-
-(* three nested isolated groups: the innermost layer is clamped against the untranslated max_bbox and
-   loses pixels that are on the canvas, inside both enclosing layers and inside the content
-   (100x100 canvas, a rect from x=-300 to 500: the numbers are the recorded trace of the real renderer) *)
-Lemma nested_clamp_refuted :
-  exists W H m b1 P1 b2 P2 b3 px py,
-    max_bbox W H = Some m /\ layer_box b1 true m = LBox P1 /\ layer_box b2 true m = LBox P2 /\
-    small_bboxb b3 = true /\
-    in_irect (canvas_rect W H) px py /\ in_irect P1 px py /\ in_irect P2 (px - ix P1) (py - iy P1) /\
-    frame_okb W H (ix P1 + ix P2) (iy P1 + iy P2) m = false /\
-    touches b3 0%Q (px - ix P1 - ix P2) (py - iy P1 - iy P2) /\
-    ~ in_lres (layer_box b3 true m) (px - ix P1 - ix P2) (py - iy P1 - iy P2).
-Proof.
-  exists 100, 100, (mk_irect (-200) (-200) 500 500),
-    (mk_qrect (-(300 # 1)) (10 # 1) (800 # 1) (80 # 1)), (mk_irect (-200) 8 500 84),
-    (mk_qrect (-(100 # 1)) (2 # 1) (800 # 1) (80 # 1)), (mk_irect (-102) 0 402 84),
-    (mk_qrect (2 # 1) (2 # 1) (800 # 1) (80 # 1)), 50, 50.
-  split; [vm_compute; reflexivity|]. split; [vm_compute; reflexivity|]. split; [vm_compute; reflexivity|].
-  split; [vm_compute; reflexivity|].
-  split; [vm_compute; intuition discriminate|]. split; [vm_compute; intuition discriminate|].
-  split; [vm_compute; intuition discriminate|]. split; [vm_compute; reflexivity|].
-  split.
-  - unfold touches, mk_qrect, mk_irect; simpl. unfold Qlt; simpl. lia.
-  - vm_compute. intros [[_ A] _]. discriminate A.
+  intros b' S S' HW HH Hm F F' C C'.
+  destruct (canvas_in_max_bbox W H HW HH) as [m1 [E [V [I _]]]]. rewrite Hm in E. inversion E; subst m1.
+  destruct (frame_pixel m0 ox oy m W H px py V I F C) as [M Vm].
+  destruct (frame_pixel m0 ox' oy' m' W H (px + dx) (py + dy) V I F' C') as [M' Vm'].
+  rewrite !layer_pixels_small by assumption. unfold b'. rewrite raw_box_shift.
+  unfold in_irect, ishift, i_right, i_bottom in *; cbn [ix iy iw ih] in *. lia.
 Qed.
 
 (* ---------------------------------------------------------------- outside the i32 range *)
@@ -589,29 +604,6 @@ Proof.
   intros S S' Vm C C' i i' H H'.
   destruct (filter_region_equivariant dx dy b m S S' Vm C C' i i' H H') as [E R].
   subst i'. split; [apply shift_ts_equivariant|]. split; [reflexivity | exact R].
-Qed.
-
-(* a nested group in a frame whose origin is 250 px left of a 100 px canvas: the same content is clamped
-   away before a -20 shift and partly visible after it *)
-Lemma nested_shift_refuted :
-  exists W H m b dx dy ox px py,
-    max_bbox W H = Some m /\ small_bboxb b = true /\ small_bboxb (qshift dx dy b) = true /\
-    frame_okb W H ox 0 m = false /\
-    in_irect (canvas_rect W H) px py /\ in_irect (canvas_rect W H) (px + dx) (py + dy) /\
-    in_lres (layer_box (qshift dx dy b) true m) (px + dx - ox) (py + dy) /\
-    ~ in_lres (layer_box b true m) (px - ox) py.
-Proof.
-  (* frame origin -250 (enclosing layers clamped at the left edge of max_bbox do not move with the root
-     shift); local content box 305..325 = device 55..75 lies beyond the untranslated clamp edge 300 and is
-     dropped; after a root shift by -20 it is 285..305 and partly survives *)
-  exists 100, 100, (mk_irect (-200) (-200) 500 500), (mk_qrect (305 # 1) (10 # 1) (20 # 1) (20 # 1)),
-    (-20), 0, (-250), 60, 15.
-  split; [vm_compute; reflexivity|]. split; [vm_compute; reflexivity|]. split; [vm_compute; reflexivity|].
-  split; [vm_compute; reflexivity|].
-  split; [vm_compute; intuition discriminate|]. split; [vm_compute; intuition discriminate|].
-  split.
-  - vm_compute. intuition discriminate.
-  - vm_compute. intro A. exact A.
 Qed.
 
 (* ---------------------------------------------------------------- C02 extras *)
